@@ -177,6 +177,13 @@ func checkC10(c *Ctx, w *World) {
 				continue
 			}
 			mode := a.Mode
+			if mode == "X" && strings.HasPrefix(a.What, "map ") {
+				// a map read from the field and handed on (returned, stored, passed to a call): for a lock-guarded field the
+				// reference would outlive the critical section; for the other kinds it is a read like any other
+				if (spec.kind != "lock" && spec.kind != "lock-any") || freshAt(a.Base, a.Instr) {
+					mode = "R"
+				}
+			}
 			key := a.Field + "@" + qname(f) + ":" + mode
 			g := groups[key]
 			if g == nil {
@@ -202,7 +209,7 @@ func checkC10(c *Ctx, w *World) {
 				case mode == "A":
 					fail("sync/atomic access to a field that is otherwise lock-guarded (mixed discipline)")
 				case mode == "X":
-					fail("address of a lock-guarded field escapes")
+					fail("a reference to lock-guarded data (the field's address, or the map it holds) leaves the function's hands: whoever receives it can use it without the lock")
 				case fresh:
 					g.good++
 					g.detail = "object still private to its constructor"
